@@ -387,7 +387,8 @@ def gen_enums(repo):
         raise TieBroken("display.rs: regex literal not found")
     rx = m.group(1)
     out.append("Definition DIAGRAM_HEADER_REGEX : list N := [%s]." % "; ".join(str(ord(c)) for c in rx))
-    m = re.search(r"map_or\(\s*\(\s*(\d+)\s*,\s*(true|false)\s*\)", ysrc)
+    m = re.search(r"map_or\(\s*\(\s*(\d+)\s*,\s*(true|false)\s*\)", ysrc) or \
+        re.search(r"None\s*=>\s*\(\s*(\d+)\s*,\s*(true|false)\s*\)", ysrc)
     if not m:
         raise TieBroken("display.rs: default (move number, side) not found")
     out.append("Definition DIAGRAM_DEFAULT_MOVE : N := %s." % m.group(1))
